@@ -196,7 +196,7 @@ func genC14(t *rapid.T) *C14Case {
 func checkC14(c *C14Case) *Violation {
 	st := stat("C14")
 	src := c14Src(c)
-	res := Compile(src, Opts{Optimize: true, Switches: c.Switches})
+	res := CompileMaybeLM(src, Opts{Optimize: true, Switches: c.Switches})
 	if res.Panic != nil || res.Budget {
 		return viol("crash", "%s\n--- source\n%s", res.Describe(), src)
 	}
